@@ -41,13 +41,17 @@ pub struct FilterLog {
     pub runs: Mutex<usize>,
     pub finished: Mutex<usize>,
     pub mid_snaps: Mutex<Vec<u64>>,
+    /// writes the in-filter client performed: (key, value, seqno)
+    pub mid_writes: Mutex<Vec<(Vec<u8>, Vec<u8>, u64)>>,
+    /// the tree, once it is open (the factory is built before the tree exists)
+    pub tree: Mutex<Option<lsm_tree::AnyTree>>,
 }
 
 pub struct Factory {
     keys: Vec<Vec<u8>>,
     verdicts: Vec<VerdictSpec>,
     log: Arc<FilterLog>,
-    mid: Option<lsm_tree::SequenceNumberCounter>,
+    mid: Option<(lsm_tree::SequenceNumberCounter, lsm_tree::SequenceNumberCounter)>,
 }
 
 impl Factory {
@@ -55,7 +59,7 @@ impl Factory {
         keys: Vec<Vec<u8>>,
         verdicts: Vec<VerdictSpec>,
         log: Arc<FilterLog>,
-        mid: Option<lsm_tree::SequenceNumberCounter>,
+        mid: Option<(lsm_tree::SequenceNumberCounter, lsm_tree::SequenceNumberCounter)>,
     ) -> Self {
         Self {
             keys,
@@ -95,7 +99,7 @@ struct Filter {
     verdicts: Vec<VerdictSpec>,
     log: Arc<FilterLog>,
     run: usize,
-    mid: Option<lsm_tree::SequenceNumberCounter>,
+    mid: Option<(lsm_tree::SequenceNumberCounter, lsm_tree::SequenceNumberCounter)>,
     first: bool,
 }
 
@@ -107,8 +111,18 @@ impl CompactionFilter for Filter {
     ) -> lsm_tree::Result<Verdict> {
         if self.first {
             self.first = false;
-            if let Some(vis) = &self.mid {
-                // a concurrent reader opens a snapshot while this compaction is running
+            if let Some((seqno, vis)) = &self.mid {
+                // a concurrent client writes one key, publishes it, and opens a snapshot while
+                // this compaction is running (the merge loop holds no tree lock)
+                use lsm_tree::AbstractTree;
+                if let Some(t) = self.log.tree.lock().unwrap().as_ref() {
+                    let s = seqno.next();
+                    let key = self.keys.last().cloned().unwrap_or_default();
+                    let val = crate::driver::small_value(b'm', s);
+                    let _ = t.insert(key.clone(), val.clone(), s);
+                    vis.fetch_max(s + 1);
+                    self.log.mid_writes.lock().unwrap().push((key, val, s));
+                }
                 self.log.mid_snaps.lock().unwrap().push(vis.get());
             }
         }
